@@ -27,6 +27,97 @@ import "strconv"
 //@   ensures len(result) == 0 || (len(result) == 2 && 1 <= len(result[1]) && len(result[1]) <= 6 && len(result[1]) <= len(result[0]) && len(result[0]) <= len(result[1]) + 1 && len(result[0]) <= len(b))
 //@   ensures len(result) == 2 ==> forall(i, 0, len(result[1]), ('0' <= result[1][i] && result[1][i] <= '9') || ('a' <= result[1][i] && result[1][i] <= 'f') || ('A' <= result[1][i] && result[1][i] <= 'F'))
 
+// vRegexps checks the two assumed regular expressions against hand-written matchers of CSS Syntax 3
+// §4.3.7 (escape: one to six hex digits, then at most one whitespace: space, newline or tab; CR and FF
+// do not survive preprocessing) and §4.3.12 (number), on every byte string up to length 8 (escapes) and
+// 7 (numbers) over the characters that matter. Bounded: longer inputs are not enumerated.
+func vRegexps() (int, []string) {
+	isHex := func(c byte) bool { return '0' <= c && c <= '9' || 'a' <= c && c <= 'f' || 'A' <= c && c <= 'F' }
+	isDigit := func(c byte) bool { return '0' <= c && c <= '9' }
+	refHex := func(b []byte) (digits, total int) {
+		for digits < len(b) && digits < 6 && isHex(b[digits]) {
+			digits++
+		}
+		total = digits
+		if digits > 0 && total < len(b) && (b[total] == ' ' || b[total] == '\n' || b[total] == '\t') {
+			total++
+		}
+		return
+	}
+	refNumber := func(b []byte) int {
+		i := 0
+		if i < len(b) && (b[i] == '+' || b[i] == '-') {
+			i++
+		}
+		d := i
+		for d < len(b) && isDigit(b[d]) {
+			d++
+		}
+		end := -1
+		if d > i {
+			end = d
+		}
+		if d+1 < len(b) && b[d] == '.' && isDigit(b[d+1]) {
+			d++
+			for d < len(b) && isDigit(b[d]) {
+				d++
+			}
+			end = d
+		}
+		if end < 0 {
+			return -1
+		}
+		e := end
+		if e < len(b) && (b[e] == 'e' || b[e] == 'E') {
+			e++
+			if e < len(b) && (b[e] == '+' || b[e] == '-') {
+				e++
+			}
+			if e < len(b) && isDigit(b[e]) {
+				for e < len(b) && isDigit(b[e]) {
+					e++
+				}
+				end = e
+			}
+		}
+		return end
+	}
+	n := 0
+	var fails []string
+	var rec func(buf []byte, alphabet string, max int, check func([]byte))
+	rec = func(buf []byte, alphabet string, max int, check func([]byte)) {
+		check(buf)
+		if len(buf) == max {
+			return
+		}
+		for i := 0; i < len(alphabet); i++ {
+			rec(append(buf, alphabet[i]), alphabet, max, check)
+		}
+	}
+	rec(make([]byte, 0, 8), "1fA \n\tg", 8, func(b []byte) {
+		n++
+		digits, total := refHex(b)
+		m := hexEscapeRe.FindSubmatch(b)
+		ok := (digits == 0 && len(m) == 0) || (digits > 0 && len(m) == 2 && len(m[1]) == digits && len(m[0]) == total)
+		if !ok && len(fails) < 10 {
+			fails = append(fails, "hexEscapeRe on "+strconv.Quote(string(b)))
+		}
+	})
+	rec(make([]byte, 0, 7), "1+-.eEx", 7, func(b []byte) {
+		n++
+		end := refNumber(b)
+		m := numberRe.FindIndex(b)
+		ok := (end < 0 && m == nil) || (end >= 0 && len(m) == 2 && m[0] == 0 && m[1] == end)
+		if !ok && len(fails) < 10 {
+			fails = append(fails, "numberRe on "+strconv.Quote(string(b)))
+		}
+	})
+	return n, fails
+}
+
+//@ bounded vRegexps hexEscapeRe and numberRe against hand-written matchers of CSS Syntax 3 §4.3.7 / §4.3.12 on every byte string up to length 8 (7 for numbers) over the significant characters
+//@   props C06
+
 //@ func isSpace
 //@   props C06 C07
 //@   nopanic
